@@ -187,6 +187,23 @@ def _impl(tier, seed, search):
                             break
         L.sample('sequence', dict(cls=c, start_len=2, ops=['append', 'pop(0)', 'get[-1]']))
     # ---- all slices / indices ----------------------------------------------------------------
+    # elements far from the origin (translations of 1e2 .. 1e4 beside a general rotation): every list operation still works as on a list
+    for cfar, mkfar in (('SE3', lambda: np.block([[inputs.so3(g), (g.normal(size=3) * 10.0 ** g.uniform(2, 4)).reshape(3, 1)], [np.zeros((1, 3)), np.ones((1, 1))]])),
+                        ('SE2', lambda: np.block([[inputs.so2(g), (g.normal(size=2) * 10.0 ** g.uniform(2, 4)).reshape(2, 1)], [np.zeros((1, 2)), np.ones((1, 1))]]))):
+        clsf = CL[cfar][0]
+        for rep_ in range(6 if tier == 'quick' else 40):
+            valsf = [mkfar() for _ in range(3)]
+            for opn_, opf_, reff_ in (('pop()', lambda X_: np.asarray(X_.pop().A, float), lambda r_: r_.pop()), ('pop(0)', lambda X_: np.asarray(X_.pop(0).A, float), lambda r_: r_.pop(0)), ('x[1]', lambda X_: np.asarray(X_[1].A, float), lambda r_: r_[1]),
+                                      ('x[::-1][0]', lambda X_: np.asarray(X_[::-1][0].A, float), lambda r_: r_[::-1][0]), ('list(iter)[2]', lambda X_: np.asarray(list(iter(X_))[2].A, float), lambda r_: r_[2]),
+                                      ('insert(1, x[0])', lambda X_: (X_.insert(1, X_[0]), np.asarray(X_[1].A, float))[1], lambda r_: (r_.insert(1, r_[0]), r_[1])[1]), ('x[0] = x[2]', lambda X_: (X_.__setitem__(0, X_[2]), np.asarray(X_[0].A, float))[1], lambda r_: (r_.__setitem__(0, r_[2]), r_[0])[1])):
+                Xf_ = clsf([v_.copy() for v_ in valsf], check=False); rf_ = [v_.copy() for v_ in valsf]
+                L.count('far-elements', key=(cfar, opn_))
+                try: got_ = opf_(Xf_)
+                except Exception as e:
+                    L.fail(f'list-op:far-elements:{opn_}', f'{cfar}: {opn_} on an object whose values have translations of 1e2 .. 1e4 raised {type(e).__name__}: {str(e)[:60]}', dict(cls=cfar, op=opn_)); continue
+                want_ = reff_(rf_)
+                if not np.allclose(got_, want_, rtol=0, atol=1e-9) or not same(Xf_, rf_):
+                    L.fail(f'list-op:far-elements:{opn_}', f'{cfar}: {opn_} on an object whose values have large translations differs from the list', dict(cls=cfar, op=opn_))
     rng_idx = [None] + list(range(-7, 8)); steps = [None, 1, -1, 2, -2, 3, -3]
     for c in classes:
         cls, _ = CL[c]
